@@ -125,6 +125,12 @@ def handle(mod, case, stats, known, origin="generated"):
         return v
     if v.rejected:
         stats.rejected[v.rejected] = stats.rejected.get(v.rejected, 0) + 1
+        want = os.environ.get("VERIF_DUMP_REJECTED")  # debugging aid: keep the cases whose refusal reason contains this text
+        if want and want in str(v.rejected):
+            d = os.path.join(os.environ.get("TMPDIR", "/tmp"), "verif-rejected")
+            os.makedirs(d, exist_ok=True)
+            with open(os.path.join(d, "%s-%s.json" % (getattr(mod, "ID", "X"), sha(case)[:12])), "w") as f:
+                json.dump({"rejected": v.rejected, "case": case}, f)
     if v.margin > stats.max_margin:
         stats.max_margin = v.margin
         stats.margin_case = sha(case)
